@@ -64,7 +64,11 @@ def build(run):
     b1, log = cargo_build("ds")
     if not b1:
         fatal(run, "cargo build of harness/ds against /repo failed", log)
-    return {"release": b1}
+    # the crate feature `unsafe` selects other code in several modules of dcl_data_structures: the same cases run against that build too
+    b2, log2 = cargo_build("ds", ("unsafe",), "release")
+    if not b2:
+        fatal(run, "cargo build of harness/ds (feature unsafe) against /repo failed", log2)
+    return {"release": b1, "unsafe": b2}
 
 
 def corpus_cases():
